@@ -14,10 +14,12 @@ for sid in sorted(os.listdir(V + "/seeded")):
     meta = json.load(open(d + "/meta.json"))
     pid = meta["property"]
     subprocess.run(["git", "-C", "/repo", "reset", "-q"]); subprocess.run(["git", "-C", "/repo", "checkout", "--", "."])
+    chk = subprocess.run(["git", "-C", "/repo", "apply", "--check", d + "/patch.diff"], capture_output=True, text=True)
     a = subprocess.run(["git", "-C", "/repo", "apply", "--3way", d + "/patch.diff"], capture_output=True, text=True)
     if a.returncode != 0:
         a = subprocess.run(["git", "-C", "/repo", "apply", d + "/patch.diff"], capture_output=True, text=True)
     if a.returncode != 0:
+        subprocess.run(["git", "-C", "/repo", "reset", "-q"]); subprocess.run(["git", "-C", "/repo", "checkout", "--", "."])
         res[sid] = {"property": pid, "applies": False, "note": a.stderr[-300:]}
         continue
     t0 = time.time()
